@@ -398,6 +398,9 @@ pub fn execute(sb: &Sandbox, base: &Files, op: &OpSpec, plan: &FaultPlan) -> Obs
 /// `execute`, plus the comparison with what the fault-free run of the same operation wrote: under
 /// transient I/O faults alone (no stored byte changed, no lie about which files exist) an operation
 /// that reports success must have written exactly what it writes without faults.
+/// hangs this worker process has met so far
+pub static HANGS_SEEN: std::sync::atomic::AtomicU32 = std::sync::atomic::AtomicU32::new(0);
+
 pub fn execute_vs(sb: &Sandbox, base: &Files, op: &OpSpec, plan: &FaultPlan, clean_written: Option<&BTreeMap<String, String>>) -> Observed {
     let mut obs = execute(sb, base, op, plan);
     if plan.store != StoreFault::None {
@@ -990,8 +993,19 @@ fn check_case(sb: &Sandbox, opts: &Opts, idx: usize, case: &Case, per_op: usize,
                 plans.push(FaultPlan { store, spec: clean_spec.clone() });
             }
         }
+        let mut hangs_of_this_op = 0u32;
         for (pi, plan) in plans.iter().enumerate() {
+            // a compiler that hangs costs the watchdog's whole budget per run: two hangs of one
+            // operation are reported, the rest of its plans is not needed; and a worker that has
+            // met many hangs stops exploring (the finding is made, the check must still end)
+            if hangs_of_this_op >= 2 || HANGS_SEEN.load(std::sync::atomic::Ordering::Relaxed) >= 8 {
+                break;
+            }
             let obs = execute_vs(sb, &base, op, plan, baseline.written.as_ref());
+            if obs.exit == Exit::Hung {
+                hangs_of_this_op += 1;
+                HANGS_SEEN.fetch_add(1, std::sync::atomic::Ordering::Relaxed);
+            }
             r.runs += 1;
             r.digest = sha(format!("{}{}{:?}{}", r.digest, obs.exit.class(), obs.counts, obs.syscalls).as_bytes());
             for f in &obs.fired {
@@ -1202,6 +1216,9 @@ pub fn child(opts: &Opts, k: usize, n: usize, resume_after: i64, base: &str) -> 
     for (i, case) in all.iter().enumerate() {
         if i % n != k || (i as i64) <= resume_after {
             continue;
+        }
+        if HANGS_SEEN.load(std::sync::atomic::Ordering::Relaxed) >= 8 {
+            break;
         }
         let _ = std::fs::write(format!("{base}.world"), serde_json::to_vec(&json!({"idx": i, "case": case.name, "files": files_json(&case.files)})).unwrap());
         MARKER.with(|m| *m.borrow_mut() = Some((format!("{base}.marker"), case.name.clone())));
